@@ -33,6 +33,9 @@ man = {
     "engines": [
         {"name": "vx", "path": "/verif/vx", "serves_properties": [c["property_id"] for c in checks], "kind_free_text": "extractor + contract weaver (python3 stdlib): copies the named items verbatim from /repo/src on every run, applies the fixed rewrite list of DESIGN.md §3, weaves contracts/*.vspec, runs Verus, maps every diagnostic back to a named clause"},
         {"name": "verus", "path": "/opt/veriftools/verus", "serves_properties": [c["property_id"] for c in checks], "kind_free_text": "deductive verifier (Z3 back end), single-file mode"},
+        {"name": "coef", "path": "/verif/coef", "serves_properties": sorted({p for e in reg.get("engines", []) if e["kind"].startswith("coef") for p in e.get("properties", [])}), "kind_free_text": "generators of coefficient lemmas (order conditions, continuous order conditions, Radau collocation conditions) from the constants and statements of /repo/src/methods on every run; discharged by Verus by(compute_only)"},
+        {"name": "kani", "path": "/verif/kani/fltlemmas", "serves_properties": sorted({p for e in reg.get("engines", []) if e["kind"].startswith("kani") for p in e.get("properties", [])}), "kind_free_text": "Kani/CBMC lemma base: every IEEE axiom of prelude/ieee_axioms.rs is proved bit-precisely by a loop-free harness of the same name (complete proofs over all f64 bit patterns)"},
+        {"name": "replay", "path": "/verif/replay", "serves_properties": [c["property_id"] for c in checks], "kind_free_text": "scenarios run against the real crate: supply the concrete failing input of a refuted obligation; in the thorough tier also run proactively (tests, never counted as proof)"},
     ],
     "checks": checks,
     "not_applicable": na,
